@@ -42,6 +42,10 @@ class Mon(Monitor):
                                      r.kind, r.idx, f[0][2], o[2])))
                 elif f and f[0][1] == 'err':
                     self.see('failed-with-reason/%s/%s' % (r.kind, stage))
+                elif f and f[0][1] == 'ok' and not self._acked_in_step(w, r):
+                    out.append(V('reason', 'succeeded-at-loss/%s/%s' % (r.kind, stage),
+                                 '%s request %d (%s) SUCCEEDED in the step that lost its clean connection (%s)' % (
+                                     r.kind, r.idx, stage, how)))
         # nothing of an ended clean connection is carried over
         for ci, p, o in writes(w):
             c = w.conns[ci]
@@ -55,6 +59,11 @@ class Mon(Monitor):
                              '%s of request %d (made on connection %d, clean session) written on connection %d' % (
                                  p['type'], r.idx, r.conn, ci)))
         return out
+
+    def _acked_in_step(self, w, r):
+        from ..monitor import rx_packets
+        need = {'pub': ('PUBACK', 'PUBCOMP'), 'sub': ('SUBACK',), 'unsub': ('UNSUBACK',)}[r.kind]
+        return any(p['type'] in need and p.get('msgId') == r.msgId for ci, p in rx_packets(w))
 
     def _stage(self, r):
         if not r.tx:
